@@ -82,6 +82,11 @@ func generate(prop, tier, lane string, seed uint64, worker, run int) *Scenario {
 		scn.Strat = genStrategy(r)
 	case "C05":
 		scn.C05 = genC05(r, tier)
+		if run == 1 || (tier == "thorough" && run%200 == 100) {
+			// systematic transition matrix: all ordered pairs of 12 streams that
+			// differ in options / values / emptiness, on one instance
+			scn.C05 = genC05Matrix(r)
+		}
 		if run == 0 || (tier == "thorough" && run%500 == 250) {
 			// a regular share of the lifecycles builds a large, very regular
 			// trie between two builds of input 0 (process-history dependence)
